@@ -146,8 +146,8 @@ def group_task(case):
     from harness import imgrun, plans, product, project
     from harness import layout as L
 
-    plan = plans.make_plan(case["k"], case["seed"], L.tables())
-    b = product.build_product(level=case["level"], images=case["images"], seed=case["seed"], plan=plan)
+    plan = plans.make_plan(case["k"], case["seed"], L.tables()) if case.get("k") is not None else None
+    b = product.build_product(level=case["level"], images=case["images"], seed=case["seed"], plan=plan, drift=case.get("drift", 0))
     url = imgrun.put_on_fs(b, "local", f"c08_{case['seed']}_{case['k']}")
     out = {"case": case, "res": {}}
     try:
@@ -271,6 +271,10 @@ def body(chk):
             cases.append(dict(level=level, images=(("HH", None, 3, 2), ("HV", "F1", 1, 1)), seed=chk.seed + k, k=k))
     for k, imgs in ((1, (("HH", None, 8, 1), ("HV", "F1", 16, 2))), (2, (("VV", None, 24, 1), ("VH", None, 7, 1)))):  # line counts at byte / word boundaries
         cases.append(dict(level="1.1", images=imgs, seed=chk.seed + 30 + k, k=k))
+    # per-line columns an index might be tempted to compress: constant, slow ramp, plateaus that return to an earlier value, a ramp
+    # regular except at one line -- every entry must come back as written
+    for d in (1, 2, 3, 4):
+        cases.append(dict(level=("1.5", "1.1")[d % 2], images=(("HH", None, 20, 1), ("HV", None, 12, 1)), seed=chk.seed + 60 + d, k=None, drift=d))
     lc.prepare_layouts(cases)
     gres = checklib.pmap(group_task, cases, chk.scratch)
     ng = 0
